@@ -32,7 +32,10 @@ def akai_payload():
                 {"name": "WIDE-L", "n": 12000, "chain": [17, 18, 19], "seq": 9},
                 {"name": "WIDE-R", "n": 12000, "chain": [20, 22, 21], "seq": 10},
                 # five sectors: one read can hold two and more WHOLE sectors between its first and last piece
-                {"name": "LONG5", "n": 20000, "chain": [27, 25, 28, 26, 29], "seq": 11}]},
+                {"name": "LONG5", "n": 20000, "chain": [27, 25, 28, 26, 29], "seq": 11},
+                # a dual-mono pair: two directory entries naming ONE chain (the second entry is an alias of the first)
+                {"name": "DUAL-L", "n": 7000, "chain": [31, 30], "seq": 12},
+                {"name": "DUAL-R", "n": 7000, "chain": [31, 30], "seq": 12, "alias": True}]},
             {"name": "VOL2", "dir": [12], "files": [{"name": "OTHER", "n": 300, "chain": [13], "seq": 5}]}]},
         {"vols": [
             {"name": "VOLB", "dir": [4], "files": [
@@ -313,6 +316,14 @@ def configs(quick):
     out.append({"name": "roland:two-samples-one-chain", "kind": "roland", "parts": [
         P(HA, ("read", 4096), ("read", CL), ("read", 4096)), P(HB, ("read", 2), ("read", CL + 1), ("read", 4096)),
         P(R0, ("read", 4096), ("read", 4096))]})
+    # two directory entries naming one chain: two distinct streams over the same sectors, read in turn / through the transcoder
+    DL, DR = ("A:", "VOL1", "DUAL-L"), ("A:", "VOL1", "DUAL-R")
+    for kind in ("akai", "akai2352"):
+        out.append({"name": kind + ":one-chain-two-entries", "kind": kind, "parts": [
+            P(DL, ("read", 4096), ("read", 4096), ("read", S)), P(DR, ("read", 1000), ("seek", 3), ("read", 4096)),
+            P(A1, ("read", 4096))]})
+        out.append({"name": kind + ":one-chain-two-entries-stereo", "kind": kind, "parts": [
+            {"path": list(DL), "path2": list(DR), "ops": [["next"]] * 4, "stepwise": True}, P(A2, ("read", 4096), ("read", 4096))]})
     # a raw-sector image with one scratched sync pattern inside FRAG: whatever a reader makes of that sector, what the
     # OTHER streams deliver must not depend on whether / when FRAG walked into it
     kind = "akai2352_scratched"
@@ -439,7 +450,7 @@ class Check(CheckBase):
     level = "model_checking"
     title = "Sample streams sharing one image file handle do not disturb one another"
     rule = ("per configuration (AKAI raw and inside MODE1/2352: two files of one partition, one fragmented, one file of a "
-            "second partition, an L/R pair through the transcoder (also on an image file that ends inside the right half), the raw-sector image with one wiped sync pattern inside the first file, a three-sector pair with a contiguous left and a fragmented right half, lazy directory listings; Roland: forward + reverse-mode "
+            "second partition, an L/R pair through the transcoder (also on an image file that ends inside the right half), the raw-sector image with one wiped sync pattern inside the first file, a three-sector pair with a contiguous left and a fragmented right half, a dual-mono pair whose two directory entries name ONE chain, lazy directory listings; Roland: forward + reverse-mode "
             "sample + listing of another performance, a shared sample with a leading-cluster offset, two samples living in one fragmented chain, two reverse-mode samples and a reverse-mode L/R pair, four pairs in which the left half's start point equals the address of the right half's first cluster; CDDA: three tracks; two streams of ONE sample obtained by asking the element twice -- Roland forward windows inside / equal to / one word longer than their file, a reverse-mode sample, the sample an incomplete Roland image ends in (an element that hands out the same object again has one stream: nothing to compare)): ALL interleavings of the participants' call programs "
             "(block reads of 1, 2, 4096, sector-1, sector+1 bytes and of 6146..30000 bytes over files of five sectors / four clusters, sector-aligned reads of a contiguous file that end "
             "exactly on a sector boundary, read-to-end requests, absolute seeks, ls of unrealised directories, transcoder "
